@@ -144,7 +144,10 @@ def compare_with_ref(ctx, text, stream, terms, case):
         if p.trailing_sep:
             ctx.count('expected:trailing-sep')
         if i >= len(stream):
-            ctx.viol('token:segments-lost', 'the reader stopped before the last delimited segment', case,
+            seg_t = rterms[0]
+            prev_empty = (seg_t + seg_t) in text or any((seg_t + e + seg_t) in text for e in ('\n', '\r\n', '\r', '\n\n'))
+            why = 'long-segment' if len(p.raw) > 8000 else ('empty-segment' if prev_empty else 'other')
+            ctx.viol('token:segments-lost:' + why, 'the reader stopped before the last delimited segment', case,
                      {'yielded': len(stream), 'expected_at_least': i + 1, 'next_expected': p.raw[:80], 'raw_len': len(p.raw)})
             return False
         sid, els, errs, seg = stream[i]
